@@ -12,7 +12,7 @@ class P(StreamProperty):
     theorems = ['C06_points', 'C06_rs_generator_gf8', 'C06_rs_generator_gf4', 'C06_rs_systematic_rows', 'C06_rs_compat',
                 'C06_src_untouched_model', 'C06_null_slot_model']
     rule = ('encoder sessions, every repair ESI, application-allocated and NULL output slots, identity payloads (the output IS the generator row / '
-            'the equation) and random payloads of lengths 1..40 and 1023..1025: every k for m=4, sampled k for m=8 (all k in thorough), the LDPC grid; '
+            'the equation) and random payloads of lengths 1..40 and 1023..1025: every k for m=4, sampled k for m=8 (all k in thorough), the LDPC grid; GF(2^m) sessions preceded by a session of the other field size with the same (k, r); '
             'oracle on the real library: RS rows equal the Lagrange formula computed independently (Python, bit-level field), codec 1 and codec 2 (m=8) give '
             'identical bytes, every LDPC parity equation sums to zero over the produced codeword, sources unchanged, NULL slot replaced by a library buffer; '
             'non-trivial = distinct (codec, k, r, length, payload, slot policy)')
@@ -30,8 +30,10 @@ class P(StreamProperty):
         cw = case_codeword(c)
         H = None
         built = {}
+        sid = str(c.meta.get('sid', 0))
         for i, (l, o) in enumerate(zip(c.lines, c.impl)):
             f = l.split(); op = f[0]
+            if f[1:2] != [sid]: continue
             if '!modified' in o:
                 return [('c06:source-modified:%s' % kind, 'an application buffer changed during %r: %s' % (l, o[-40:]), i)]
             if op == 'matrix' and o.startswith('ok rows='):
@@ -73,6 +75,12 @@ class P(StreamProperty):
             for k in ks:
                 r = lim - k if (tier == 'thorough' or lim == 15) else min(lim - k, 5)
                 cases.append(gens.encoder_case('g-%s-%d' % (kind, k), gens.Cfg(kind, k, r), slots='mix'))
+        # the same (k, r) in the other field of the GF(2^m) codec immediately before (both directions), every k with n = 15 and some smaller n
+        for kind in ('rs2m4', 'rs2m8'):
+            for k in range(1, 15):
+                for r in sorted(set([15 - k, 1, min(3, 15 - k)])):
+                    c = gens.encoder_case('tw-%s-%d-%d' % (kind, k, r), gens.Cfg(kind, k, r), slots='mix')
+                    cases.append(gens.with_prefix(c, gens.field_twin_prefix(c.meta['cfg'])))
         # random payloads, odd lengths (kernel tails)
         j = 0
         for kind in ('rs8', 'rs2m8', 'rs2m4', 'ldpc'):
